@@ -43,7 +43,7 @@ m = {
            "source_commits": [], "add_only": True},
  "engines": ENGINES,
  "checks": [CLAIMS[k] for k in sorted(CLAIMS)],
- "notes": "Contract-based deductive verification; see DESIGN.md. Exit codes of ./check: 0 held, 1 violation, 2 undecided (source left the supported subset / solver unknown), 3 checker crash. fix: commits in /repo are listed in known_findings.json under 'fixed'.",
+ "notes": "Contract-based deductive verification; see DESIGN.md. Exit codes of ./check: 0 held, 1 violation, 2 undecided (source left the supported subset / solver unknown), 3 checker crash. fix: commits in /repo are listed in known_findings.json under 'fixed'; one recorded, unrepaired finding (C08 on 2D inputs) under 'findings' is printed as KNOWN-FINDING and does not fail the check.",
  "not_applicable": na,
 }
 json.dump(m, open(os.path.join(HERE, "MANIFEST.json"), "w"), indent=1)
